@@ -38,7 +38,7 @@ from spyne.util import six, coroutine, Break
 from spyne.util.six import string_types, BytesIO
 from spyne.error import ResourceNotFoundError
 from spyne.model.binary import BINARY_ENCODING_URLSAFE_BASE64, File
-from spyne.model.primitive import DateTime
+from spyne.model.primitive import DateTime, Date
 from spyne.protocol.dictdoc import SimpleDictDocument
 
 
@@ -161,7 +161,9 @@ _month = ['w00t', "Jan", "Feb", "Mar", "Apr", "May", "Jun", "Jul", "Aug", "Sep",
              "Oct", "Nov", "Dec"]
 
 def _header_to_bytes(prot, val, cls):
-    if issubclass(cls, DateTime):
+    # Date derives from DateTime but its values are datetime.date: no time of
+    # day, no tzinfo. It is written like any other primitive.
+    if issubclass(cls, DateTime) and not issubclass(cls, Date):
         if val.tzinfo is not None:
             val = val.astimezone(pytz.utc)
         else:
